@@ -147,6 +147,7 @@ def run(ck):
     ls = gen_corpus("LS")
     lq = gen_corpus("LQ")
     terms = ls + ck.rng.sample(l1, min(len(l1), 700 if quick else len(l1))) + ck.rng.sample(lq, min(len(lq), 300 if quick else len(lq)))
+    shared_tgt = [None]
     for j in terms:
         src_env = fresh_env()
         try:
@@ -179,6 +180,31 @@ def run(ck):
             ev["exc"] = "%s: %s" % (type(ex).__name__, str(ex)[:100])
         pysmt.environment.pop_env()
         evs.append(ev)
+        eid += 1
+        ck.count()
+        # ONE long-lived target environment receives copies from every (fresh) source environment - their node ids
+        # all start from the same counter - and, now and then, its own formulas
+        if shared_tgt[0] is None:
+            shared_tgt[0] = pysmt.environment.Environment()
+        tg = shared_tgt[0]
+        ev2 = {"id": eid, "kind": "normalize", "conflict": False, "src": ev["src"], "res": "error",
+               "copy": term_io.node("bool_constant", i=[1]), "rty": term_io.ty_none(), "shared": 0, "in_target": False, "exc": ""}
+        try:
+            g2 = tg.formula_manager.normalize(f)
+            ev2["copy"] = array_sorted_deep(term_io.export(g2))
+            ev2["rty"] = term_io.export_type(tg.stc.get_type(g2))
+            src_ids = dag_ids(f)
+            ev2["shared"] = sum(1 for i_ in dag_ids(g2) if i_ in src_ids)
+            ev2["in_target"] = all(node in tg.formula_manager for node in dag_ids(g2).values())
+            ev2["res"] = "ok"
+            if eid % 5 == 0:
+                g3 = tg.formula_manager.normalize(g2)          # a formula of the target itself: the identity
+                if g3 is not g2:
+                    ev2["res"] = "error"
+                    ev2["exc"] = "NotIdentity: normalize of the target's own formula returned another object"
+        except Exception as ex:
+            ev2["exc"] = "%s: %s" % (type(ex).__name__, str(ex)[:100])
+        evs.append(ev2)
         eid += 1
         ck.count()
     verdicts, st = tlc.validate_events("Trace_Pure", evs, constants={"Seed": 0, "Cap": 8})
